@@ -79,7 +79,7 @@ def run(ctx):
             keep = len(cases)
     if not cases:
         raise Inconclusive("ServerRouting.tla emitted no histories")
-    cap = 1800 if quick else 30000
+    cap = 1800 if quick else 12000
     if len(cases) > cap:
         ctx.notes.append("%d server-routing histories generated, a seeded sample of %d replayed" % (len(cases), cap))
         cases = cases[:keep] + [cases[i] for i in sorted(ctx.rng.sample(range(keep, len(cases)), max(0, cap - keep)))]
